@@ -33,9 +33,13 @@ def _motor(case):
     if case.get('i0') is not None:
         kw = dict(no_load_electric_current=U.cls('Current')(*case['i0']),
                   maximum_electric_current=U.cls('Current')(*case['imax']))
-    return mo.DCMotor(name='motor', inertia_moment=U.cls('InertiaMoment')(1, 'kgm^2'),
-                      no_load_speed=U.cls('AngularSpeed')(*case['w0']),
-                      maximum_torque=U.cls('Torque')(*case['tmax']), **kw)
+    m = mo.DCMotor(name='motor', inertia_moment=U.cls('InertiaMoment')(1, 'kgm^2'),
+                   no_load_speed=U.cls('AngularSpeed')(*case['w0']),
+                   maximum_torque=U.cls('Torque')(*case['tmax']), **kw)
+    for which, unit in case.get('param_inplace') or []:
+        # the user re-expresses a motor parameter in place after construction (same physical quantity)
+        getattr(m, which).to(unit, inplace=True)
+    return m
 
 
 def _eval(m, w, D, with_current):
@@ -199,6 +203,12 @@ def s_case(draw):
     wu = draw(st.sampled_from(list(U.UNITS['AngularSpeed'])))
     ws = w0 * draw(st.one_of(st.floats(-3, 3), st.sampled_from([0.0, 1.0, -1.0, 0.5])))
     case['w'] = [ws / U.factor_f('AngularSpeed', wu), wu]
+    if draw(st.integers(0, 4)) == 0:
+        kinds = {'maximum_torque': 'Torque', 'no_load_speed': 'AngularSpeed'}
+        if has_i and mode != 'boundary':
+            kinds.update(no_load_electric_current='Current', maximum_electric_current='Current')
+        case['param_inplace'] = [[w_, draw(st.sampled_from(list(U.UNITS[kinds[w_]])))]
+                                 for w_ in draw(st.lists(st.sampled_from(sorted(kinds)), min_size=1, max_size=2, unique=True))]
     if has_i and draw(st.integers(0, 2)) == 0:
         case['prior'] = {'D': draw(st.sampled_from([1, -1, 0.4, -0.7, 0.9, 0])),
                          'w': [w0 * draw(st.floats(-1, 1)), 'rad/s']}
